@@ -296,14 +296,24 @@ func (rw *ReadWriter) Initialize() error {
 	}
 	msgName := msgGoToDef(rw.elemType.Name()[len("Message"):])
 
+	sizeNormal := 0
+	sizeExtended := 0
+
 	// collect message fields
 	for i := 0; i < rw.elemType.NumField(); i++ {
 		field := rw.elemType.Field(i)
 		arrayLength := byte(0)
 		goType := field.Type
 
+		if !field.IsExported() {
+			return fmt.Errorf("field '%s' is not exported", field.Name)
+		}
+
 		// array
 		if goType.Kind() == reflect.Array {
+			if goType.Len() > 255 {
+				return fmt.Errorf("array is too long: %d", goType.Len())
+			}
 			arrayLength = byte(goType.Len())
 			goType = goType.Elem()
 		}
@@ -352,7 +362,7 @@ func (rw *ReadWriter) Initialize() error {
 					scalarChar = true
 				} else { // string
 					slen, err := strconv.Atoi(tagLen)
-					if err != nil {
+					if err != nil || slen < 1 || slen > 255 {
 						return fmt.Errorf("string has invalid length: %v", tagLen)
 					}
 					arrayLength = byte(slen)
@@ -364,11 +374,11 @@ func (rw *ReadWriter) Initialize() error {
 		isExtension := (field.Tag.Get("mavext") == "true")
 
 		// size
-		var size byte
+		var size int
 		if arrayLength > 0 {
-			size = fieldTypeSizes[dialectType] * arrayLength
+			size = int(fieldTypeSizes[dialectType]) * int(arrayLength)
 		} else {
-			size = fieldTypeSizes[dialectType]
+			size = int(fieldTypeSizes[dialectType])
 		}
 
 		rw.fields[i] = &decEncoderField{
@@ -386,11 +396,18 @@ func (rw *ReadWriter) Initialize() error {
 			scalarChar:  scalarChar,
 		}
 
-		rw.sizeExtended += size
+		sizeExtended += size
 		if !isExtension {
-			rw.sizeNormal += size
+			sizeNormal += size
 		}
 	}
+
+	// payload size is stored in a byte
+	if sizeExtended > 255 {
+		return fmt.Errorf("message is too big: %d bytes, maximum is 255", sizeExtended)
+	}
+	rw.sizeNormal = byte(sizeNormal)
+	rw.sizeExtended = byte(sizeExtended)
 
 	// reorder fields as described in
 	// https://mavlink.io/en/guide/serialization.html#field_reordering
